@@ -21,7 +21,7 @@ func init() {
 			"distinct non-trivial = distinct grid points (supply, request, no-fill) plus distinct (mode, bins non-empty, threshold bound, dist bound, tie kinds, multiple hit, push k) tuples of random cases",
 		Assumptions: []string{"the proportion used by --threshold-pair is the help text's: ambiguous consequential sites / (query-only + shared + target-only + ambiguous), evaluated in float32",
 			"'evenly' is read as: extras e_i beyond min(requested, available) satisfy e_i > e_j + 1 only if bin j is exhausted; which bin is served first is free",
-			"combining --dist-push with size/dist flags, and --size-total together with --size-*, is not judged"},
+			"--dist-all overrides --dist-up/-down/-side and --size-total overrides --size-* (as the flag help says); combining --dist-push with size/dist flags is not judged"},
 		MinNontriv: 200,
 		Cases: func(tier string) int {
 			if tier == "thorough" {
@@ -455,7 +455,16 @@ func randomUDOpts(r *fw.Rng, in gen.UpdownInput) (udOpts, string) {
 			}
 		}
 	}
-	if (mode == "size-total" || mode == "size-each" || mode == "size+dist") && r.Chance(0.4) {
+	// documented overrides: --dist-all overrides --dist-up/-down/-side, --size-total overrides --size-*
+	if o.DistAll > 0 && r.Chance(0.4) {
+		o.DistUp, o.DistDown, o.DistSide = r.Intn(5), r.Intn(5), r.Intn(5)
+		mode += "+dist-both"
+	}
+	if o.SizeTotal > 0 && r.Chance(0.25) {
+		o.SizeSame, o.SizeUp, o.SizeDown, o.SizeSide = r.Intn(4), r.Intn(4), r.Intn(4), r.Intn(4)
+		mode += "+size-both"
+	}
+	if (strings.HasPrefix(mode, "size-total") || strings.HasPrefix(mode, "size-each") || strings.HasPrefix(mode, "size+dist")) && r.Chance(0.4) {
 		o.NoFill = true
 	}
 	o.ThreshPair = []float32{0.1, 0.1, 0.0, 0.3, 0.5, 1.0}[r.Intn(6)]
